@@ -289,7 +289,7 @@ def query_message(ctx, q, m, spec, origin, npaths):
     return used
 
 
-def cli_query(ctx, q, m, b, exprs, spec, tag):
+def cli_query(ctx, q, m, b, exprs, spec, tag, prefix=()):
     """the `query` command prints what the querent returns (text, flat JSON, nested JSON) - same values, same subsets"""
     from mon.cli import run_cli
     scratch = os.path.join(os.environ.get('VERIF_SCRATCH', '/verif/.scratch'), 'c16-%d' % ctx.shard)
@@ -309,8 +309,8 @@ def cli_query(ctx, q, m, b, exprs, spec, tag):
             for flags, want in ((['-j', '-n'], nestedv), (['-j'], flatv), ([], flatv)):
                 ctx.count('cli_query_runs')
                 ctx.evaluated((spec.get('hex', spec.get('file', ''))[:300], 'cli', expr, tuple(flags)), True)
-                so, se, exc, code = run_cli(['query'] + flags + [expr, path])
-                name = ''.join(flags) or 'text'
+                so, se, exc, code = run_cli(list(prefix) + ['query'] + flags + [expr, path])
+                name = (''.join(flags) or 'text') + ('/tables-root-option' if prefix else '')
                 if exc is not None or se.strip():
                     ctx.violate('cli-query-fails/%s' % name, 'pybufrkit query %s %r failed: %r %s' % (flags, expr, exc, se[:120]),
                                 dict(spec, expr=expr, cli=flags))
@@ -329,7 +329,7 @@ def cli_query(ctx, q, m, b, exprs, spec, tag):
                 except Exception as ex:
                     ok = False
                 if ok and flags == ['-j']:
-                    so2, se2, exc2, code2 = run_cli(['query'] + flags + [expr, path, path])
+                    so2, se2, exc2, code2 = run_cli(list(prefix) + ['query'] + flags + [expr, path, path])
                     ctx.count('cli_query_two_file_runs')
                     if exc2 is not None or so2 != so + so:
                         ctx.violate('cli-query-several-files', 'pybufrkit query over two copies of a file does not print the single-file output twice',
@@ -435,6 +435,19 @@ def run(ctx):
             invariance(ctx, q, dec, decc, enc, msg, m, used, spec)
             if n % 3 == 0 and used:
                 cli_query(ctx, q, m, msg.bytes, ['@[1:]' + used[0], used[-1], '@[-1]' + used[len(used) // 2]], spec, 's%d' % n)
+    if ctx.shard % 4 == 2:
+        from mon.cli import alt_tables_root, alt_message
+        scr = os.path.join(os.environ.get('VERIF_SCRATCH', '/verif/.scratch'), 'c16-%d' % ctx.shard)
+        os.makedirs(scr, exist_ok=True)
+        root = alt_tables_root(scr)
+        am = alt_message(rng, root, nsub=3)
+        try:
+            mm = Decoder(tables_root_dir=root).process(am.bytes)
+            ctx.count('cli_query_with_tables_root_option')
+            cli_query(ctx, q, mm, am.bytes, ['/012101', '@[1:]/102002/012101', '012101'], dict(origin='alt-tables', hex=am.bytes.hex()),
+                      'alt', prefix=['-t', root])
+        except Exception as e:
+            ctx.notes.append('alt tables query unavailable: %r' % (e,))
     for nsub in (2, 3, 4, 5, 3, 4):
         for name, msg in cases.same_layout_cases(rng, nsub=nsub):
             n += 1
